@@ -53,17 +53,19 @@ Definition w_fc (f : failmode) : option Z :=
   | FIgnore => wopt "ignore" Generated.fortran_engine_failure_options
   | FOther => None
   end.
-(* codes tested by the wrapper, in the order they appear in the source of each method *)
-Definition wc (l : list Z) (i : nat) : Z := nth i l (-998).
-Definition w_t_ok : Z := wc Generated.fortran_wrapper_solve_t_codes 0.        (* error_code == 0 *)
-Definition w_t_raise : Z := wc Generated.fortran_wrapper_solve_t_codes 1.     (* == 21 and errors == 'raise' *)
-Definition w_t_skip : Z := wc Generated.fortran_wrapper_solve_t_codes 2.      (* == 22 and errors == 'skip' *)
-Definition w_s_ok : Z := wc Generated.fortran_wrapper_solve_codes 0.          (* not converged and error_code == 0 *)
-Definition w_s_raise : Z := wc Generated.fortran_wrapper_solve_codes 1.       (* 21 *)
-Definition w_s_pre : Z := wc Generated.fortran_wrapper_solve_codes 2.         (* 31 *)
-Definition w_s_offpre : Z := wc Generated.fortran_wrapper_solve_codes 3.      (* 41 *)
-Definition w_s_offpost : Z := wc Generated.fortran_wrapper_solve_codes 4.     (* 42 *)
-Definition w_s_skip : Z := wc Generated.fortran_wrapper_solve_codes 5.        (* 22 *)
+(* literal codes tested by the wrapper, looked up by WHAT THE BRANCH DOES ("<exception raised>/<errors value required>/<status
+   assigned>#<occurrence>", regenerated from the source by gen_constants.py) — the order of the elif branches does not matter *)
+Definition wk (k : string) (l : list (string * Z)) : Z := zlookup k l.
+Definition w_t_ok : Z := wk "//SOLVED#0" Generated.fortran_wrapper_solve_t_keyed.                       (* error_code == 0 *)
+Definition w_t_raise : Z := wk "SolutionError/raise/ERROR#0" Generated.fortran_wrapper_solve_t_keyed.   (* == 21 and errors == 'raise' *)
+Definition w_t_skip : Z := wk "/skip/SKIPPED#0" Generated.fortran_wrapper_solve_t_keyed.                (* == 22 and errors == 'skip' *)
+Definition w_s_ok : Z := wk "//FAILED#0" Generated.fortran_wrapper_solve_keyed.                         (* not converged and error_code == 0 *)
+Definition w_s_raise : Z := wk "SolutionError/raise/ERROR#0" Generated.fortran_wrapper_solve_keyed.     (* 21 *)
+Definition w_s_pre : Z := wk "SolutionError/raise/#0" Generated.fortran_wrapper_solve_keyed.            (* 31 *)
+(* two branches raise IndexError (41, 42): the same action, told apart only by their messages *)
+Definition w_s_offpre : Z := Z.min (wk "IndexError//#0" Generated.fortran_wrapper_solve_keyed) (wk "IndexError//#1" Generated.fortran_wrapper_solve_keyed).
+Definition w_s_offpost : Z := Z.max (wk "IndexError//#0" Generated.fortran_wrapper_solve_keyed) (wk "IndexError//#1" Generated.fortran_wrapper_solve_keyed).
+Definition w_s_skip : Z := wk "/skip/SKIPPED#0" Generated.fortran_wrapper_solve_keyed.                  (* 22 *)
 Definition w_e_index : list Z := Generated.fortran_wrapper_evaluate_index_codes.   (* (11, 12, 13, 14) -> IndexError *)
 
 (* INTENT(OUT) `iteration` is never assigned on the early returns of solve_t; the ctypes adapter presets the cell to this
